@@ -156,10 +156,27 @@ def run_verus(path, unit, seed=0, rlimit=None, extra_args=''):
     return dict(cmd=cmd, rc=p.returncode, diags=diags, other=other, summary=summary, wall=wall)
 
 
-def primary_span(d, path):
-    for s in d.get('spans', []):
-        if s.get('is_primary') and os.path.basename(s['file_name']) == os.path.basename(path):
+def in_file_span(s, base):
+    """the span itself if it lies in the assembled file, else the innermost macro call site that does"""
+    seen = 0
+    while s is not None and seen < 12:
+        if os.path.basename(s.get('file_name', '')) == base:
             return s
+        s = (s.get('expansion') or {}).get('span')
+        seen += 1
+    return None
+
+
+def primary_span(d, path):
+    base = os.path.basename(path)
+    for s in d.get('spans', []):
+        if s.get('is_primary') and os.path.basename(s['file_name']) == base:
+            return s
+    # primary span inside a library / macro: fall back to the call site in our file (any span, primary first)
+    for s in sorted(d.get('spans', []), key=lambda x: not x.get('is_primary')):
+        t = in_file_span(s, base)
+        if t is not None:
+            return t
     for s in d.get('spans', []):
         if s.get('is_primary'):
             return s
@@ -533,6 +550,9 @@ def check_property(prop, tier, seed, replay=None):
         for f in r['failures']:
             if prop in f['props']:
                 failures.append(f)
+            elif not f['props']:
+                # never drop a verification failure silently: one that cannot be attributed leaves the property undecided
+                undecided.append('%s: unattributed verification failure (%s, %s at line %s of %s)' % (r['unit'], f['kind'], f['message'], f['out_line'], os.path.basename(r['path'])))
         flaky += [f for f in r.get('flaky', []) if prop in f['props']]
     real = []
     kf_obl = set()
